@@ -115,6 +115,20 @@ def run(repo: Repo, rep: Report, tier: str) -> None:
         cu = canon(f)
         fed = any(isinstance(n, ast.For) and cu.text(n.iter).endswith(")") and ".get_iteration_values(" in cu.text(n.iter) and cu.text(n.iter).count("(") >= 1
                   and isinstance(cu.node(n.iter), ast.Call) and call_name(cu.node(n.iter)) == "get_iteration_values" for n in walk_local(f.node))
+        if not fed and u.startswith("SemanticAnalyzer."):
+            # the analyzer may add one stand-in value when the list is empty (the body of a loop that never runs is still checked); it only ever adds diagnostics.
+            # The lowerer, which creates the circuit, gets no such allowance.
+            for n in walk_local(f.node):
+                if not isinstance(n, ast.For):
+                    continue
+                alts2 = cu.alts(n.iter, n)
+                calls2 = [a for a in alts2 if ".get_iteration_values(" in a and a.endswith(")")]
+                lits2 = [a for a in alts2 if a.startswith("[") and a.endswith("]")]
+                if calls2 and len(calls2) + len(lits2) == len(alts2) and isinstance(n.iter, ast.Name):
+                    fills2 = [q for q in walk_local(f.node) if isinstance(q, ast.If) and q.lineno < n.lineno and ("not " + calls2[0]) in cu.text(q.test, q)
+                              and any(isinstance(b, ast.Assign) and norm(b.targets[0]) == n.iter.id and isinstance(b.value, ast.List) and len(b.value.elts) == 1 for b in q.body)]
+                    if fills2 or not lits2:
+                        fed = True
         rep.check(fed, "C16-R2", f"{u} iterates exactly over those values", "loop iterable is the returned list" if fed else "the unrolling loop does not iterate the returned list", f.loc())
     # no second implementation
     n_other = 0
@@ -202,7 +216,8 @@ def run(repo: Repo, rep: Report, tier: str) -> None:
     rep.floor("C16-R3", "membership tests on the iteration's own names", sets_seen, 2)
     vf = repo.func("SemanticAnalyzer.visit_ForStmt")
     cvf = canon(vf)
-    vloops = [n for n in walk_local(vf.node) if isinstance(n, ast.For) and isinstance(cvf.node(n.iter), ast.Call) and call_name(cvf.node(n.iter)) == "get_iteration_values"]
+    # the loop over the iteration values (its iterable is the value list, or the value list with a stand-in for the dry run of a loop that never runs)
+    vloops = [n for n in walk_local(vf.node) if isinstance(n, ast.For) and any("get_iteration_values(" in a for a in cvf.alts(n.iter, n))]
     if not vloops:
         raise AnalysisError("C16-R3: per-iteration loop not found in visit_ForStmt")
     vl = vloops[0]
